@@ -267,6 +267,7 @@ class Model:
         self.reopened: list[str] = []            # runs whose run_started was delivered again after they were stopped/superseded
         self.misclosed: list[str] = []           # runs during which a run_stopped of ANOTHER run id was delivered
         self.misclosed_restarted: list[str] = []  # ... and whose run_started was delivered again afterwards
+        self.broken = False                      # an aggregator entry point raised: the history is not extended further
         self.reports: set[tuple[str, float]] = set()  # (tag, t) delivered in any TagsUpdatedMsg
         self.last_report: dict[str, float] = {}
         self.clock = T0
@@ -283,6 +284,8 @@ class Model:
 
 def enabled(m: Model, alphabet):
     out = []
+    if getattr(m, "broken", False):
+        return out
     for ev in alphabet:
         if ev == "reg":
             ok = not m.connected
@@ -345,13 +348,24 @@ class Sys:
         m = self.model
         rec = {"i": len(self.obs), "ev": ev, "pre": m.snapshot(), "pre_db": self.obs[-1]["db"] if self.obs else self.db_rows(),
                "pre_agg": self.obs[-1]["agg"] if self.obs else self.agg_view(), "reply": None, "sent": None}
-        if ev in MACROS:
-            if ev.startswith("bounce"):
-                m.bounces += 1
-            replies = [self._do(e, rec) for e in MACROS[ev]]
-            rec["reply"] = ",".join(str(r) for r in replies)
-        else:
-            rec["reply"] = self._do(ev, rec)
+        rec["raised"] = None
+        try:
+            if ev in MACROS:
+                if ev.startswith("bounce"):
+                    m.bounces += 1
+                replies = [self._do(e, rec) for e in MACROS[ev]]
+                rec["reply"] = ",".join(str(r) for r in replies)
+            else:
+                rec["reply"] = self._do(ev, rec)
+        except Exception as ex:           # noqa: BLE001 - an entry point of the aggregator raised: reported by the checks
+            rec["raised"] = f"{type(ex).__name__}: {str(ex)[:160]}"
+            rec["reply"] = f"RAISED:{type(ex).__name__}"
+            m.broken = True               # nothing is explored beyond this point (the session may be unusable)
+            try:
+                from openpectus.aggregator.data import database
+                database.scoped_session().rollback()
+            except Exception:             # noqa: BLE001
+                pass
         rec["post"] = m.snapshot()
         rec["agg"] = self.agg_view()
         rec["db"] = self.db_rows()
